@@ -4078,21 +4078,87 @@ Box<ITV>::generalized_affine_preimage(const Linear_Expression& lhs,
   if (marked_empty()) {
     return;
   }
-  // For any dimension occurring in the lhs, swap and change the sign
-  // of this component for the rhs and lhs.  Then use these in a call
-  // to generalized_affine_image/3.
-  Linear_Expression revised_lhs = lhs;
-  Linear_Expression revised_rhs = rhs;
+  // Compute the set of variables occurring in `lhs'.
+  std::vector<Variable> lhs_vars;
   for (Linear_Expression::const_iterator i = lhs.begin(),
          i_end = lhs.end(); i != i_end; ++i) {
-    const Variable var = i.variable();
-    PPL_DIRTY_TEMP_COEFFICIENT(tmp);
-    tmp = *i;
-    tmp += rhs.coefficient(var);
-    sub_mul_assign(revised_rhs, tmp, var);
-    sub_mul_assign(revised_lhs, tmp, var);
+    lhs_vars.push_back(i.variable());
   }
-  generalized_affine_image(revised_lhs, relsym, revised_rhs);
+
+  if (lhs_vars.empty()) {
+    // `lhs' is a constant.
+    // In this case, preimage and image happen to be the same.
+    generalized_affine_image(lhs, relsym, rhs);
+    return;
+  }
+
+  if (lhs_vars.size() == 1) {
+    // Here `lhs == a_lhs * v + b_lhs'.
+    // Independently from the form of `rhs', we can exploit the
+    // method computing generalized affine preimages for a single variable.
+    const Variable v = lhs_vars[0];
+    // Compute a sign-corrected relation symbol.
+    const Coefficient& denom = lhs.coefficient(v);
+    Relation_Symbol new_relsym = relsym;
+    if (denom < 0) {
+      switch (relsym) {
+      case LESS_THAN:
+        new_relsym = GREATER_THAN;
+        break;
+      case LESS_OR_EQUAL:
+        new_relsym = GREATER_OR_EQUAL;
+        break;
+      case GREATER_OR_EQUAL:
+        new_relsym = LESS_OR_EQUAL;
+        break;
+      case GREATER_THAN:
+        new_relsym = LESS_THAN;
+        break;
+      default:
+        break;
+      }
+    }
+    Linear_Expression expr = rhs - lhs.inhomogeneous_term();
+    generalized_affine_preimage(v, new_relsym, expr, denom);
+    return;
+  }
+
+  // Here `lhs' is of the general form, having at least two variables.
+  // To ease the computation, we add an additional dimension.
+  const Variable new_var(space_dim);
+  add_space_dimensions_and_embed(1);
+  // Constrain the new dimension to be equal to `lhs'.
+  affine_image(new_var, lhs);
+  // Existentially quantify all the variables occurring in `lhs'
+  // (from now on, they stand for the values before the transformation).
+  for (dimension_type i = lhs_vars.size(); i-- > 0; ) {
+    unconstrain(lhs_vars[i]);
+  }
+  // Constrain the new dimension so that it is related to
+  // the right hand side as dictated by `relsym'.
+  switch (relsym) {
+  case LESS_THAN:
+    refine_with_constraint(new_var < rhs);
+    break;
+  case LESS_OR_EQUAL:
+    refine_with_constraint(new_var <= rhs);
+    break;
+  case EQUAL:
+    refine_with_constraint(new_var == rhs);
+    break;
+  case GREATER_OR_EQUAL:
+    refine_with_constraint(new_var >= rhs);
+    break;
+  case GREATER_THAN:
+    refine_with_constraint(new_var > rhs);
+    break;
+  default:
+    // The NOT_EQUAL case has been already dealt with.
+    PPL_UNREACHABLE;
+    break;
+  }
+  // Remove the temporarily added dimension.
+  remove_higher_space_dimensions(space_dim);
   PPL_ASSERT(OK());
 }
 
